@@ -97,7 +97,10 @@ def gen_file(rng, depth, state, name):
             if rng.random() < 0.06:
                 keys.remove("command")
             if rng.random() < 0.06:
-                keys.append("bogus")
+                # a variable that is not one of the reserved rule variables: any other name, also one that merely begins or
+                # ends like a reserved one
+                keys.insert(rng.randint(0, len(keys)), rng.choice(["bogus", "bogus", "dep", "desc", "comm", "rspfile_", "gen", "restat1", "depfiles", "c", "d",
+                                                                    "pools", "ommand", "eps", "msvc_deps", "rsp", "in", "out", "Command", "dyndeps"]))
             for k in keys:
                 if k == "rspfile+":
                     L.append("  rspfile = $out.rsp")
